@@ -56,7 +56,7 @@ MODELS = {
     "srv_fdsq": ("MC_Server.tla", "MC_Server_fdsq.cfg", 1200, ["files_yielded", "files_on_closed_conn", "files_glued_read", "discard_on_error", "fd_reused", "closed_with_inflight"]),
     "srv_fds": ("MC_Server.tla", "MC_Server_fds.cfg", 3600, ["files_yielded", "files_on_closed_conn", "files_glued_read", "discard_on_error", "fd_reused", "pipelined_yield"]),
     # descriptors arriving with reads (C12)
-    "conn_files": ("MC_Conn.tla", "MC_Conn_files.cfg", 1800, ["files_delivered", "body_delivered", "pipelined"]),
+    "conn_files": ("MC_Conn.tla", "MC_Conn_files.cfg", 1800, ["files_delivered", "body_delivered", "pipelined", "two_queued_with_files"]),
 }
 
 # ---------------------------------------------------------------------------
